@@ -194,6 +194,11 @@ def check_model(ctx, fm, idx):
                 "sensor_range": ks, "errors": [float(e) for e in err]}, limit=3)
 
 
+def recon_kappa(M):
+    from .. import recon as _r
+    return _r.kappa(np.asarray(M, dtype=float))
+
+
 def check_metrics(ctx, idx):
     from pysensors.utils import determinant, relative_reconstruction_error
     rng = ctx.rng
@@ -240,7 +245,16 @@ def check_metrics(ctx, idx):
     Bm = np.array([[rng.randint(-4, 4) for _ in range(r)] for _ in range(n)], dtype=float)
     if rng.random() < 0.3:
         Bm = Bm / 4
+    unit_e = 0
+    if rng.random() < 0.3:
+        # other units (powers of two: exact): a determinant of r sensor rows scales like units^r and is soon very small or very large –
+        # still an ordinary double, and still THE determinant (an intermediate det(ΘᵀΘ) would need units^2r)
+        unit_e = rng.choice([-200, -160, -100, -80, -60, -30, 30, 60, 150])
+        Bm = Bm * 2.0 ** unit_e
+        ctx.count("determinant_units_2^%d" % unit_e)
     p_cnt = rng.randint(r, n)
+    if unit_e and rng.random() < 0.7:
+        p_cnt = r
     sensors = rng.sample(range(n), p_cnt)
     ctx.evaluations += 1
     got = float(determinant(np.array(sensors), n, Bm))
@@ -255,7 +269,20 @@ def check_metrics(ctx, idx):
     if orc != want:
         raise C.HarnessError(f"determinant: Lean model {want} vs Fraction oracle {orc}")
     scale = max(1.0, float(np.prod([np.linalg.norm(Bm[s]) + 1 for s in sensors])) if p_cnt == r else float(np.linalg.norm(Bm[sensors]) ** (2 * r)) + 1)
-    if abs(got - float(want)) > 1e-9 * scale:
+    # relative judgement as well (the absolute one is blind to small determinants): LU with partial pivoting gives |det| to about
+    # r·eps·κ relative (κ² for det(ΘᵀΘ)); budget 1e-11·r·κ^(1|2), judged while below 1 % and while the exact value is a normal double
+    rel_bad = False
+    if want > Fraction(10) ** 300 or (want != 0 and want < Fraction(1, 10 ** 300)):
+        ctx.count("determinant_outside_double_range(skipped)")      # e.g. det(ΘᵀΘ) of a tall system in extreme units: not a double at all
+        return
+    wf = float(want)
+    if want != 0 and 1e-290 < wf < 1e290:
+        kap = recon_kappa(Bm[sensors])
+        relb = 1e-11 * r * (kap if p_cnt == r else kap ** 2)
+        if relb < 1e-2 and (p_cnt == r or 1e-290 < wf ** 0.5):
+            rel_bad = abs(got - wf) > relb * wf
+            ctx.count("determinant_judged_relatively")
+    if abs(got - float(want)) > 1e-9 * scale or rel_bad:
         ctx.violation("concrete",
                       f"determinant({sensors}) = {got!r}, exact value {'|det(Θ)|' if p_cnt == r else 'det(ΘᵀΘ)'} = {float(want)!r}",
                       {"signature": "determinant-definition", "basis_matrix": Bm.tolist(), "sensors": sensors, "observed": got,
